@@ -33,8 +33,10 @@ typedef enum eSymbolFlags {
 
     eSymbolFlag_Label = 1 << 5,
 
+    /* (an expression like label+0 still names the label right behind the BSR) */
+
     eSymbolFlags_Promotable = eSymbolFlag_FirstPassUnknown | eSymbolFlag_Questionable
-                              | eSymbolFlag_UsesForwards
+                              | eSymbolFlag_UsesForwards | eSymbolFlag_NextLabelAfterBSR
 } tSymbolFlags;
 
 #ifdef __cplusplus
